@@ -29,6 +29,12 @@ CHECKS = {
         text="Random histories of insert / re-insert / typed, ANY and unchecked lookup / prune / clock advance (second and sub-second steps around each TTL) run against SharedCache and Cache on a virtual clock; after every lookup the result is judged against the model (never past TTL, reported TTL <= time left, live records returned exactly once, data unchanged) and after every step the stored set equals the model.",
         note="Hooks H1 (virtual clock) and H4 (snapshot) are trusted to be faithful; sub-second remainders are a stated tolerance.",
         ref="DESIGN.md §4 C05"),
+    "C07": dict(
+        level="exploration",
+        technique=PBT + "; simulated DNS universe behind a mock transport (hook H2), differential against a globally computed ground truth; sessions of questions sharing one cache",
+        text="Generated consistent delegation trees (mixed glue, in/out-of-bailiwick nameservers, v4/v6/dual hosts, cross-zone aliases, wildcards, empty non-terminals) are served by mock authoritative servers whose behaviour is computed from the universe by R-ZONE; sessions of 1..6 questions sharing a cache must each return exactly the ground-truth alias chain and final RRset (or the SOA for NODATA/NXDOMAIN), and the servers asked for a question never get shallower.",
+        note="UNIVERSE server model and ground truth (harness/src/universe.rs) are trusted; time is tokio's paused clock and the frozen H1 cache clock; nameserver order is RandomState-dependent.",
+        ref="DESIGN.md §4 C07, Appendix C"),
     "C11": dict(
         level="exploration",
         technique=PBT + "; grammar-based generation: a denotation is rendered through every optional-field/layout/quoting/escaping variant, parse result compared with the denotation; single-fault corruptions must be rejected",
